@@ -370,7 +370,7 @@ func mirrorKind(w *World, r *Report, k *Kind, efi, dfi *FuncInfo) {
 			l = f[i+1:]
 		}
 		l = strings.ToLower(l)
-		return strings.HasPrefix(l, "pad") || strings.HasPrefix(l, "zero") || l == "reserved"
+		return strings.HasPrefix(l, "pad") || strings.HasPrefix(l, "zero") || l == "reserved" || isPaddingField(w, k.Name, f)
 	}
 	done := map[string]bool{}
 	// ---- encoder → decoder
